@@ -39,7 +39,7 @@ def check(ctx):
     g = ctx.gen
     ctx.lean_gate()
     reqs, metas = [], []
-    n = 300 if ctx.tier == "quick" else 5000
+    n = 2000 if ctx.tier == "quick" else 8000
     for _ in range(n):
         mk = gen_market(g)
         T, N = mk["T"], mk["N"]
